@@ -41,7 +41,7 @@ def direction(r):
 class Gen:
     """Stateful generator: tracks which handles / views exist so that most operations are valid."""
 
-    def __init__(self, seed, mode="plain", nks=2, weights=None, filters=None, big=False, maxviews=4, sealing=0):
+    def __init__(self, seed, mode="plain", nks=2, weights=None, filters=None, big=False, maxviews=4, sealing=0, configs=None):
         self.r = random.Random(seed)
         self.mode = mode
         self.nks = nks
@@ -58,6 +58,10 @@ class Gen:
         # sealed journals, eviction watermarks and sealed-journal recovery take part in the program (memtable limit raised
         # so that only explicit rotations happen; journal compression off so that journal sizes are what the model computes)
         self.sealing = sealing
+        # configs: keyspace configurations to draw from, one per keyspace name (the property quantifies over standard and
+        # key-value separated keyspaces, leveled and FIFO strategies where FIFO does not evict); the model takes no
+        # configuration: every configuration must behave as the same ordered map
+        self.kscfg = [(self.r.choice(configs) if configs else "") for _ in range(len(NAMES))]
         self.fills = 0
         self.w = dict(put=10, delete=4, batch=3, clear=1, ingest=2, get=6, scan=5, misc=3,
                       rotate=2, step=3, major=1, reopen=1, snap=0, it=0, tx=0, txop=0, gc=0, ks=0.5, delks=0,
@@ -91,7 +95,8 @@ class Gen:
             self.open_ks(i)
 
     def open_ks(self, i):
-        self.emit("ks h%d %s%s" % (i, NAMES[i], " mt=400000000" if self.sealing else ""))
+        self.emit("ks h%d %s%s%s" % (i, NAMES[i], " mt=400000000" if self.sealing else "",
+                                     (" " + self.kscfg[i]) if self.kscfg[i] else ""))
         if i not in self.handles:
             self.handles.append(i)
 
